@@ -663,6 +663,8 @@ func (e *Engine) checkCodec(cd *CodecDecl) {
 	if !has(ct.Ensures, "rcount(r0) - old(rcount(r0)) == wcount(w0) - old(wcount(w0))") {
 		bad("the lemma does not ensure exact consumption")
 	}
+	// the lemma's "fails only if" clause names rejection by a third party: the summary's decoder may then refuse, too
+	cd.Rejects = has(ct.Ensures, "!rejected(")
 	if !cd.MayReject && !has(ct.Ensures, "==> decErr == nil") {
 		bad("the lemma has no 'decoding fails only if' clause and the declaration does not say mayreject")
 	}
@@ -759,8 +761,8 @@ func (e *Engine) tokSummaryDecode(st *State, cd *CodecDecl, T types.Type, fn *ss
 				eq = e.evalPred(st, cd.Eq, []specBind{{e.load(st, p, T), T}, {src, RT}})
 			}
 			e.assume(st, eq)
-			if cd.MayReject {
-				// the nested decoder may refuse for reasons outside its lemma (app resolver, validating constructor)
+			if cd.MayReject || cd.Rejects {
+				// the nested decoder may refuse: a third party rejects its bytes, or reasons outside its lemma (app resolver, validating constructor)
 				rej := tb.Fresh("nested_rejects", SBool)
 				e.forkOn(st, rej, func(st *State) { e.markRejected(st, r); k(st, e.tokErr(st, "dec")) }, func(st *State) { k(st, nilErr(tb)) })
 				return
@@ -771,6 +773,108 @@ func (e *Engine) tokSummaryDecode(st *State, cd *CodecDecl, T types.Type, fn *ss
 			e.forkOn(st, rej, func(st *State) { k(st, e.tokErr(st, "dec")) }, func(st *State) { k(st, nilErr(tb)) })
 		})
 	})
+}
+
+// tokSummaryEncodeVal: the encoder function of a codecfn declaration applied to value v of type VT.
+func (e *Engine) tokSummaryEncodeVal(st *State, cd *CodecDecl, VT types.Type, v Val, w Val, pos token.Pos, k Kont) {
+	tb := e.tb
+	e.Assumed[sumAssumption] = true
+	e.checkCodec(cd)
+	if sl, ok := VT.Underlying().(*types.Slice); ok {
+		v = e.materialiseIfSlice(st, v, sl)
+	}
+	e.oblige(st, "pre", "codec "+cd.Type, pos, e.evalPred(st, cd.WF, []specBind{{v, VT}}), "hypothesis of the round-trip lemma "+cd.By+": "+cd.WF)
+	fv := e.flatten(st, VT, v)
+	leaves := intTerms(tb, fv.T)
+	val := tb.App("sumval_"+cd.Enc+"_"+typeKey(VT), SInt, leaves...)
+	e.sumInjectiveNamed(st, cd.Enc+"_"+typeKey(VT), len(leaves))
+	ln := tb.Int(0)
+	if _, ok := VT.Underlying().(*types.Slice); ok {
+		ln = v.slLen()
+	}
+	fail := tb.Fresh("tokw_fail", SBool)
+	e.forkOn(st, fail, func(st *State) { k(st, e.tokErr(st, "enc")) }, func(st *State) {
+		e.tokWrite(st, w, e.tokKind("sumfn:"+cd.Enc), ln, val)
+		k(st, nilErr(tb))
+	})
+}
+
+// tokSummaryDecodeInto: the decoder function of a codecfn declaration; p points to a slice whose elements the decoder fills
+// (the slice header is kept: the token must have been written for a slice of the same length).
+func (e *Engine) tokSummaryDecodeInto(st *State, cd *CodecDecl, PT types.Type, p Val, r Val, pos token.Pos, k Kont) {
+	tb := e.tb
+	e.Assumed[sumAssumption] = true
+	e.checkCodec(cd)
+	pt, ok := PT.Underlying().(*types.Pointer)
+	if !ok {
+		panic(e.unsupported("codecfn decoder with a non-pointer target"))
+	}
+	VT := pt.Elem()
+	sl, isSl := VT.Underlying().(*types.Slice)
+	if !isSl {
+		panic(e.unsupported("codecfn decoder with a non-slice target"))
+	}
+	e.nilCheck(st, p, pos, cd.Dec+" into nil pointer")
+	d := e.materialiseIfSlice(st, e.load(st, p, VT), sl)
+	// whatever happens, the elements of the target may have been written
+	havocElems := func(st *State) {
+		for _, l := range Leaves(sl.Elem()) {
+			cl := e.elemClass(sl.Elem(), "", l)
+			h := e.H(st, cl, ArrOf(ArrOf(l.Sort)))
+			old := tb.Select(h, d.slArr())
+			nr := tb.Fresh("decoded_row", ArrOf(l.Sort))
+			j := tb.BoundVar("j", SInt)
+			e.assume(st, tb.Forall([]*Term{j}, tb.Implies(tb.Or(tb.Lt(j, d.slOff()), tb.Ge(j, tb.Add(d.slOff(), d.slLen()))), tb.Eq(tb.Select(nr, j), tb.Select(old, j))), []*Term{tb.Select(nr, j)}))
+			e.setH(st, cl, tb.Store(h, d.slArr(), nr))
+		}
+		e.wfVal(st, VT, e.load(st, p, VT))
+	}
+	fail := tb.Fresh("tokr_fail", SBool)
+	e.forkOn(st, fail, func(st *State) {
+		cur := e.ghostArr(st, "rfail", SArrB)
+		e.setGhost(st, "rfail", tb.Store(cur, readerKey(tb, r), tb.True()))
+		havocElems(st)
+		k(st, e.tokErr(st, "dec"))
+	}, func(st *State) {
+		val, okT := e.tokRead(st, r, e.tokKind("sumfn:"+cd.Enc), d.slLen())
+		name := cd.Enc + "_" + typeKey(VT)
+		ls := Leaves(VT)
+		e.sumInjectiveNamed(st, name, len(ls))
+		havocElems(st)
+		e.forkOn(st, okT, func(st *State) {
+			src := Val{T: make([]*Term, len(ls))}
+			for i, l := range ls {
+				t := tb.App(fmt.Sprintf("unsum_%s_%d", name, i), SInt, val)
+				if l.Sort == SBool {
+					t = tb.Neq(t, tb.Int(0))
+				}
+				src.T[i] = t
+			}
+			e.assume(st, e.evalPred(st, cd.Eq, []specBind{{e.load(st, p, VT), VT}, {src, VT}}))
+			rej := tb.Fresh("nested_rejects", SBool)
+			if !cd.MayReject && !cd.Rejects {
+				rej = tb.False()
+			}
+			e.forkOn(st, rej, func(st *State) { e.markRejected(st, r); k(st, e.tokErr(st, "dec")) }, func(st *State) { k(st, nilErr(tb)) })
+		}, func(st *State) {
+			rej := tb.Fresh("garbage_rejected", SBool)
+			e.forkOn(st, rej, func(st *State) { k(st, e.tokErr(st, "dec")) }, func(st *State) { k(st, nilErr(tb)) })
+		})
+	})
+}
+
+func (e *Engine) sumInjectiveNamed(st *State, name string, n int) {
+	tb := e.tb
+	var bvs []*Term
+	for i := 0; i < n; i++ {
+		bvs = append(bvs, tb.BoundVar(fmt.Sprintf("l%d", i), SInt))
+	}
+	gen := tb.App("sumval_"+name, SInt, bvs...)
+	var eqs []*Term
+	for i := 0; i < n; i++ {
+		eqs = append(eqs, tb.Eq(tb.App(fmt.Sprintf("unsum_%s_%d", name, i), SInt, gen), bvs[i]))
+	}
+	e.assume(st, tb.Forall(bvs, tb.And(eqs...), []*Term{gen}))
 }
 
 var _ = big.NewInt
